@@ -339,7 +339,10 @@ class C12(Check):
                  'mixed': [crng.choice((0, 1, -1, 10 ** 6, -10 ** 9,
                                         10 ** 11)) for _ in range(16)]}[pat]
         return {'start': interesting_instant(crng) % (4 * 10 ** 15) +
-                10 ** 9, 'pattern': pat, 'steps': steps, 'ops': ops}
+                10 ** 9, 'pattern': pat, 'steps': steps, 'ops': ops,
+                # the process's local time zone: no answer may depend on it
+                'tz': crng.choice((None, None, None, 'Asia/Tokyo',
+                                   'America/St_Johns', 'Pacific/Chatham'))}
 
     def execute(self, case):
         log = core.EventLog()
@@ -358,6 +361,13 @@ class C12(Check):
             if len(viols) < 3:
                 viols.append({'cls': cls, 'detail': d})
         old_dt, old_time = tu.datetime, tu.time
+        import os as _os
+        import time as _rtime
+        old_tz = _os.environ.get('TZ')
+        if case.get('tz'):
+            _os.environ['TZ'] = case['tz']
+            _rtime.tzset()
+            bump(pr, 'process_local_zone_not_utc')
         tu.datetime, tu.time = dshim, tshim
         tu.clear_time_override()
         # is the wall-clock seam in effect on this tree? (module attributes
@@ -436,6 +446,12 @@ class C12(Check):
         finally:
             tu.clear_time_override()
             tu.datetime, tu.time = old_dt, old_time
+            if case.get('tz'):
+                if old_tz is None:
+                    _os.environ.pop('TZ', None)
+                else:
+                    _os.environ['TZ'] = old_tz
+                _rtime.tzset()
             if fixture is not None:
                 try:
                     fixture.cleanUp()
@@ -721,6 +737,10 @@ class C12(Check):
             c = copy.deepcopy(case)
             c['steps'] = [1]
             c['pattern'] = 'tick'
+            yield c
+        if case.get('tz'):
+            c = copy.deepcopy(case)
+            c['tz'] = None
             yield c
         for i, op in enumerate(ops):
             if len(op) == 4 and op[3] != ['naive']:
